@@ -1,5 +1,6 @@
 """debug: run one task/case in-process and print details.  python -m pyvc.dbg C02 'task name' '{"op":"and_"}'"""
-import sys, json, os, time
+import sys, json, os, time, faulthandler, signal
+faulthandler.register(signal.SIGUSR1, all_threads=False)
 sys.path.insert(0, os.environ.get('VERIF_REPO','/repo'))
 from pyvc import run
 def main():
